@@ -948,6 +948,11 @@ func (g *c04Gen) query(p *c04Pop) *c04Query {
 		q.conv = "none"
 	}
 	multi := q.conv == "" && len(p.world.Convs) > 0
+	// a named converter may have no output for a stream: nothing is searched then, and what a negated
+	// *sequence* means without any representation is not defined by the statement (the engine accepts the
+	// stream although the sequence's first elements cannot have matched, while its normaliser assumes that
+	// "x then -y" implies "x")
+	named := q.conv != "" && q.conv != "none"
 	nconds := 1
 	switch k := g.uni(20, "nconds"); {
 	case k >= 17:
@@ -1024,7 +1029,7 @@ func (g *c04Gen) query(p *c04Pop) *c04Query {
 			cond = []c04Filter{{e: e, key: g.key(e)}}
 		}
 		// several representations: negated sequences are not generated (their aggregation is not defined by the statement)
-		if !(multi && len(cond) > 1) && g.chance(30, "neg") {
+		if !((multi || named) && len(cond) > 1) && g.chance(30, "neg") {
 			cond[len(cond)-1].neg = true
 		}
 		q.conds = append(q.conds, cond)
